@@ -12,6 +12,12 @@ CHECKS = {
         note="Trusted: Lean kernel (axioms propext/Classical.choice/Quot.sound), py2lean for the accepted subset (validated each run), SQLite's evaluation of the rendered expressions, astropy two-part JD arithmetic (sampled, not proved).",
         design="DESIGN.md §5 C11",
     ),
+    "C15": dict(
+        technique="Lean 4 proof (induction; Kleene-logic distributivity) over hand models of the CNF predicate algebra and the legacy normaliser + exhaustive structural/truth-table correspondence",
+        text="eval_logicalAnd/Or/Not, eval_implOr, eval_fromBool (new system, n-ary, all predicates, all K3 assignments) and normalize_preserves / flatten_preserves / fromTree_preserves (legacy normaliser, both normal forms, every fuel) are proved in Lean 4. The hand models are tied to the code by comparing, for every formula of an exhaustive small enumeration plus seeded random larger ones, the exact structure of the result (operands, wrapper string, node lists) and its full truth table with the real classes.",
+        note="Trusted: Lean kernel (standard axioms); the correspondence harness (structure + truth tables on enumerated formulas) is the only tie of the hand models to the code; legacy normalize is modelled with a fuel argument (preservation proved for every fuel; termination not proved).",
+        design="DESIGN.md §5 C15",
+    ),
 }
 
 NOT_YET = {}
